@@ -76,8 +76,8 @@ func handleALIGNB(params x86genParams, ctx *CodeGenContext) ([]byte, error) {
 		return nil, fmt.Errorf("handleALIGNB: invalid alignment boundary %d, must be a positive power of 2", alignBoundary)
 	}
 
-	// x86genParams から現在のバイトコード長を取得
-	currentLength := params.MachineCodeLen
+	// 揃えるのは出力長ではなくアドレス: ORG で設定された DollarPosition を考慮する (pass1 は LOC で計算している)
+	currentLength := int(ctx.DollarPosition) + params.MachineCodeLen
 	paddingSize := (alignBoundary - (currentLength % alignBoundary)) % alignBoundary
 
 	if paddingSize > 0 {
